@@ -1,7 +1,7 @@
 """Rule registry: property id -> {"rules": [Rule...], "explanation": str, "thorough": fn|None}."""
 import importlib
 
-MODULES = ["tables", "dispatch", "paths", "names", "purity", "io", "boolean", "codecs", "taint"]
+MODULES = ["tables", "dispatch", "paths", "names", "purity", "io", "boolean", "codecs", "taint", "misc"]
 
 EXPLANATIONS = {}
 
